@@ -1,0 +1,11 @@
+//go:build verif
+
+/*
+SPDX-License-Identifier: Apache-2.0
+*/
+
+package outofbandv2
+
+// VerifStop ends the listener goroutine of a service instance that is not used any more (the service offers no way
+// to stop it): the callback channel is closed, the listener's range loop returns.
+func (s *Service) VerifStop() { close(s.callbackChannel) }
